@@ -30,6 +30,17 @@ def _lits(e):
     return [const_str(x) for x in walk(e) if const_str(x) is not None]
 
 
+def _places_sd(x):
+    if isinstance(x, dict):
+        if "local" in x and "proj" in x:
+            yield x
+        for v in x.values():
+            yield from _places_sd(v)
+    elif isinstance(x, list):
+        for v in x:
+            yield from _places_sd(v)
+
+
 def _div_guarded(b, bi, tt):
     """a DivisionByZero / RemainderByZero assertion whose divisor is the very value a dominating `match v { 0 => .., _ => .. }`
     (or `if v == 0` / `v != 0`) has excluded on the way here"""
@@ -402,6 +413,26 @@ def r_serde(f):
     R.inst(vm.ident, "t1 every field has a missing_field error: %s" % sorted(miss), ok)
     if not ok:
         R.fail(vm.ident, "t1:missing:%s" % ",".join(sorted(miss)), "missing_field is raised for %s, expected one per field %s: a document lacking a field would be accepted or mis-reported" % (sorted(miss), sorted(want)), vm.where())
+    # t1c the reader does not depend on the ORDER of the entries: what the arm of one key reads or decides never looks at the
+    # slot of another key (a document may list `data` before the dimensions - serde_json's own `Value` sorts its keys)
+    if arms:
+        domv_ = vm.dominators()
+        slot_of = {loc: nm for loc, nm in names.items() if nm in want}
+        cross = []
+        for lit, abi, tsucc in arms:
+            if lit not in want or tsucc is None:
+                continue
+            region = [x for x in range(len(vm.blocks)) if (x == tsucc or tsucc in domv_.get(x, set())) and not vm.blocks[x]["cleanup"]]
+            for x in region:
+                bl_ = vm.blocks[x]
+                for pl in _places_sd([bl_["stmts"], {k_: v_ for k_, v_ in (bl_["term"] or {}).items() if k_ != "dest"}]):
+                    nm_ = slot_of.get(pl["local"])
+                    if nm_ and nm_ != lit:
+                        cross.append((lit, nm_, x))
+        n += 1
+        R.inst(vm.ident, "t1c no arm of the key match reads the slot of another key (order independence)", not cross)
+        for lit, nm_, x in cross[:1]:
+            R.fail(vm.ident, "t1c:order:%s-reads-%s" % (lit, nm_), "the arm for `%s` reads the slot of `%s`: what is accepted for `%s` then depends on whether `%s` came earlier in the document, and self-describing formats do not promise an order (serde_json's Value sorts keys: `data` comes first)" % (lit, nm_, lit, nm_), vm.where())
     # t1b the slots start empty: a slot that is pre-filled (from the visitor's own state, say) makes the missing-field test pass
     # for documents that lack the entry, and hides a repeated entry
     keyblocks = [bi for bi, t, fn in vm.calls() if fn and fn["name"] in ("next_key", "next_entry", "next_key_seed")]
